@@ -16,6 +16,9 @@ CHECKS = {
  "C02": dict(level="exploration", design="§4 C02",
    text="Seeded + enumerated monitoring of 25+ JSON-consuming entry points against the two bounds of the property (json.Valid => accept up to 4095 levels; accept => StructOK, a reference structural validator that does not judge string contents): SIMD block sweep (every critical byte at every block offset), unterminated strings of every length, seeded random/mutated/truncated documents, token soups, number spellings, nesting around the limit; avx2, sse and optdec processes.",
    technique="runtime two-bound oracle (encoding/json.Valid above, reference structural validator below) over enumerated block sweeps and seeded mutations; captured bytes of RawMessage/Unmarshaler re-validated"),
+ "C03": dict(level="exploration", design="§4 C03",
+   text="Seeded differential monitoring of ConfigStd.Marshal against encoding/json.Marshal over freshly compiled encoder programs (random reflect-built types + catalogue with Marshaler/TextMarshaler on value and pointer receivers, erroring and invalid-output marshalers, every map key kind, recursive and embedded types), values passed by value, by pointer, inside []interface{} and inside map[string]interface{}; outputs compared as token streams (numbers byte-exact, strings by denoted value, order exact) and error-or-not; jit, sse and vm processes.",
+   technique="runtime differential monitor vs encoding/json.Marshal; token-stream oracle via a reference parser"),
  "C19": dict(level="exploration", design="§4 C19",
    text="Seeded differential monitoring of every number conversion route (30+ routes per literal: all integer widths, float32/64, json.Number, interface{} under default/UseNumber/UseInt64, string-tagged fields, integer map keys, ast accessors, Interface, Preorder callbacks) against strconv/encoding/json, with math/big-built exact midpoints; formatting of floats/ints byte-for-byte against encoding/json; all 2^32 float32 patterns in the thorough tier (exhaustive for float32 formatting and shortest-text decoding). jit/optdec/vm/sse configurations each get a share.",
    technique="runtime differential monitor vs strconv/encoding/json; exhaustive float32 bit-pattern sweep (thorough); seeded boundary/midpoint literals"),
